@@ -88,6 +88,10 @@ def gen_url(rng, hosts=None, simple=False):
         user = rng.choice(['u', 'user', 'U%20ser', 'u%0D%0A', 'näme', 'a%40b', '']) if not simple else 'u%d' % rng.randrange(1000)
         if rng.random() < 0.8:
             pw = rng.choice(['p', 'secret', 'p%3Aw', 'p%0Aq', 'p w', 'p@ss'.replace('@', '%40'), '']) if not simple else 'p%d' % rng.randrange(1000)
+        if rng.random() < 0.35:
+            # long credentials: 'user:password' of 58 bytes and more is where a line-wrapping base64 breaks the line
+            user = 'u%d' % rng.randrange(1000) + gen_long_cred(rng, 20, 120)
+            pw = 'p%d' % rng.randrange(1000) + gen_long_cred(rng, 20, 120)
     if simple:
         path = '/' + '/'.join(rng.choice(['a', 'b', 'x', 'dir', 'i.html']) for _ in range(rng.randrange(0, 3)))
         query = rng.choice(['', '', 'q=1', 'a=b&c=d'])
@@ -115,6 +119,21 @@ def gen_url(rng, hosts=None, simple=False):
     elif query:
         url += '?' + query
     return url
+
+
+def gen_long_cred(rng, lo=40, hi=200):
+    """a long user name / password as it appears in a URL (percent-encoded bytes included)"""
+    n = rng.randrange(lo, hi + 1)
+    out = []
+    size = 0
+    while size < n:
+        if rng.random() < 0.12:
+            out.append(rng.choice(['%C3%A9', '%20', '%3A', '%40', '%2F', '%E2%82%AC', '%7E', '%0A', '%0D']))
+            size += 1
+        else:
+            out.append(rng.choice('abcdefghijklmnopqrstuvwxyzABCDEFGHIJKLMNOPQRSTUVWXYZ0123456789-._~'))
+            size += 1
+    return ''.join(out)
 
 
 FIELD_NAMES = ['User-Agent', 'Accept', 'accept-encoding', 'REFERER', 'x-foo_bar9a', 'X-1a-b', 'Cache-Control',
@@ -510,8 +529,7 @@ def decode_basic(value):
         raw = base64.b64decode(value[6:]).decode('utf-8', 'replace')
     except Exception:
         return None
-    u, _, p = raw.partition(':')
-    return u, p
+    return raw          # 'user:password' (either part may itself hold a colon: compare whole strings)
 
 
 # ------------------------------------------------------------------ end-to-end: the real application over fakenet
